@@ -5,8 +5,12 @@ import UtilModel.Routine.ProofsK4
 import UtilModel.Routine.ProofsObs
 import UtilModel.Routine.ProofsObs2
 import UtilModel.Routine.ProofsObs3
+import UtilModel.Routine.ProofsObs4
+import UtilModel.Routine.ProofsObs5
+import UtilModel.Routine.ProofsObs6
 import UtilModel.Routine.ProofsRT
 import UtilModel.Routine.Monitors
+import UtilModel.Routine.Backoff
 /-!
 # routine: property theorems (C04, C05, C14)
 
@@ -133,6 +137,34 @@ theorem C05b_obs (es : List Ev) (s : St) (hr : model.run model.init es = some s)
     monC05b.accepts (es.filterMap model.obs) = true := by
   have := c05b_run model.init s es good_init cur_init {} linkA_init hr
   simp [ObsMonitor.accepts, show monC05b.init = () from rfl, this]
+
+/-- **C05, context lineage, observable form** (`C05c_obs`): the monitor clause "an instance seen with a live context
+derives from a context that is possibly the container's current one" — a context given to a SetContext call that is
+in flight, or that has returned and is not known to be overwritten by a SetContext call invoked after its return
+(the monitor's `Reg` bookkeeping: the candidates for "latest" under every linearization of the concurrent calls) —
+accepts the observable trace of every run of the model, with any number of concurrent callers. Rests on the
+last-writer lemma (`ProofsReg.lean`, `RegOK.*`) and on `step_ctx` (only SetContext writes the container's context).
+The clause is part of `monC05`. -/
+theorem C05c_obs (es : List Ev) (s : St) (hr : model.run model.init es = some s) :
+    monC05c.accepts (es.filterMap model.obs) = true := by
+  obtain ⟨ms, h, _⟩ := ctx_run model.init s {} es good_init.recs cur_init i1_init ctxLink_init hr
+  have : monC05c.run monC05c.init (es.filterMap model.obs) = some ms := h
+  simp [ObsMonitor.accepts, this]
+
+/-- **C05, lineage clause, observable form** (`C05l_obs`): the monitor clause "an instance seen with a live context
+stems from a possibly-current context, a possibly-current routine function and — for a StateRoutineContainer — a
+possibly-current, non-empty stored state" accepts the observable trace of every run of the model, with any number
+of concurrent callers. "Possibly current" is the monitor's `Reg` bookkeeping for each of the three registers: the
+value was given to a call that is in flight, or to a call that has returned and is not known to be overwritten by
+a call invoked after its return (SetState / SwapValue count only if they report a change). Rests on the last-writer
+lemma (`ProofsReg.lean`), `step_ctx` / `step_faeq` (who writes the three registers), `live_current` (a live
+instance is the current instance of the current record, under the container's context) and `K4` (in state mode the
+current record is the closure over the stored state and function). This is the second probe clause of `monC05`. -/
+theorem C05l_obs (es : List Ev) (s : St) (hr : model.run model.init es = some s) :
+    monC05l.accepts (es.filterMap model.obs) = true := by
+  obtain ⟨ms, h, _⟩ := lin_run model.init s {} es good_init.recs cur_init i1_init k4_init linLink_init hr
+  have : monC05l.run monC05l.init (es.filterMap model.obs) = some ms := h
+  simp [ObsMonitor.accepts, this]
 
 /-- an instance that has exited has a cancelled context -/
 theorem exited_cancelled (es : List Ev) (s : St) (hr : model.run model.init es = some s)
@@ -458,5 +490,25 @@ theorem waitExited_current (s : St) (rinr : Bool) (e : Option Nat)
       · simp only [hc] at h
         cases rinr <;> simp at h
         exact Or.inr ⟨rfl, h.symm⟩
+
+/-- **C14 "run again … by nothing else", observable form of the healthy-instance clause** (`C14ha_obs`): the monitor
+clause "an executing instance that was seen with a live context is not seen cancelled unless a mutating API call
+(SetContext, ClearContext, SetRoutine, RestartRoutine, SetState, SetStateRoutine, SwapValue) was in flight when it
+entered or has been invoked since, or its root context was cancelled by the environment" accepts the observable
+trace of every run of the model: no retry timer (stale or not), recorded error, exit of an older instance,
+WaitExited or GetState stops a healthy instance. The clause is the first clause of `monC14h`, which the driver
+evaluates on histories recorded from the real code. -/
+theorem C14ha_obs (es : List Ev) (s : St) (hr : model.run model.init es = some s) :
+    monC14ha.accepts (es.filterMap model.obs) = true := by
+  obtain ⟨ms, h, _⟩ := hl_run model.init s es good_init {} hlink_init {} linkA_init hr
+  have : monC14ha.run monC14ha.init (es.filterMap model.obs) = some ms := h
+  simp [ObsMonitor.accepts, this]
+
+/-- state form of the same fact: the critical section of a retry timer never cancels an instance that has not
+exited (it restarts the routine only when the record has exited, and the instance it cancels is that one) -/
+theorem timer_keeps_running (es : List Ev) (s : St) (hr : model.run model.init es = some s)
+    (t r n : Nat) (x : Inst) (hx : s.insts[n]? = some x) (hc : x.st ≠ .closed) :
+    (timerBody s t r).insts[n]? = some x :=
+  timerBody_keep s (good_run model.init s es good_init hr).recs t r n x hx hc
 
 end UtilModel.Routine
